@@ -77,8 +77,13 @@ def kRetry (m : List Dgram) (mmsg : Bool) : List SOut → KRes
 (1279-1281 and 1348-1352), on r = -errno -/
 def mapErr (r : Int) : Int := if r = -(EAGAIN : Int) ∨ r = -(ENOBUFS : Int) then UV_EAGAIN else r
 
-/-- uv__udp_sendmsg1 (1264-1289); uv__udp_prep_pkt cannot fail for dest ∈ {NULL, v4, v6} -/
+/-- uv__udp_prep_pkt (1236-1261): NULL address, AF_INET, AF_INET6 are accepted (AF_UNIX / AF_UNSPEC do not occur
+here); any other family → UV_EINVAL -/
+def prepOk (d : Dgram) : Bool := d.dest ≤ 2
+
+/-- uv__udp_sendmsg1: prep failure is returned as it is, without a system call -/
 def sendmsg1 (d : Dgram) (outs : List SOut) : KRes :=
+  if !prepOk d then ⟨UV_EINVAL, outs, []⟩ else
   let k := kRetry [d] false outs
   if k.r < 0 then ⟨mapErr k.r, k.outs, k.log⟩ else ⟨1, k.outs, k.log⟩
 
@@ -93,31 +98,37 @@ structure LoopRes where
   nsent : Nat
   outs : List SOut
   log : List KCall
+  sys : Bool := false     -- r is the result of a failed system call (C: r == -1, reason in errno)
   deriving Repr
 
-/-- outer loop of the sendmmsg branch (1307-1331): `for (i = 0; i < count; ) { fill; sendmmsg; if (r < 1) goto exit;
-nsent += r; i += r; }`.  Fuel = count suffices because r ≥ 1 (`mmsgLoop_fuel`). -/
+/-- outer loop of the sendmmsg branch: `for (i = 0; i < count; ) { fill (a uv__udp_prep_pkt failure leaves with
+that error code: goto exit); sendmmsg; if (r < 1) goto exit; nsent += r; i += r; }`.  Fuel = count suffices because
+r ≥ 1 (`mmsgLoop_fuel`). -/
 def mmsgLoop (all : List Dgram) (count : Nat) : Nat → Nat → Nat → Int → List SOut → List KCall → LoopRes
-  | 0, _, nsent, r, outs, log => ⟨r, nsent, outs, log⟩
+  | 0, _, nsent, r, outs, log => ⟨r, nsent, outs, log, false⟩
   | f + 1, i, nsent, r, outs, log =>
     if i < count then
-      let k := kRetry (fill all i count 0 20) true outs
-      if k.r < 1 then ⟨k.r, nsent, k.outs, log ++ k.log⟩
-      else mmsgLoop all count f (i + k.r.toNat) (nsent + k.r.toNat) k.r k.outs (log ++ k.log)
-    else ⟨r, nsent, outs, log⟩
+      if (fill all i count 0 20).all prepOk then
+        let k := kRetry (fill all i count 0 20) true outs
+        if k.r < 1 then ⟨k.r, nsent, k.outs, log ++ k.log, true⟩
+        else mmsgLoop all count f (i + k.r.toNat) (nsent + k.r.toNat) k.r k.outs (log ++ k.log)
+      else ⟨UV_EINVAL, nsent, outs, log, false⟩
+    else ⟨r, nsent, outs, log, false⟩
 
-/-- fallback loop (1339-1341): `for (i = 0; i < count; i++, nsent++) if ((r = uv__udp_sendmsg1(...))) goto exit;`
-— sendmsg1 returns 1 on success, so the first iteration always leaves through `goto exit` with nsent = 0 -/
+/-- fallback loop: `for (i = 0; i < count; i++, nsent++) if ((r = uv__udp_sendmsg1(...))) goto exit;`
+— sendmsg1 returns 1 on success, so the first iteration always leaves through `goto exit` with nsent = 0.  Its error
+is already the mapped errno (a value of -1 = EPERM is recomputed from the same errno at `exit:`, same value). -/
 def msgLoop : List Dgram → Nat → Int → List SOut → List KCall → LoopRes
-  | [], nsent, r, outs, log => ⟨r, nsent, outs, log⟩
+  | [], nsent, r, outs, log => ⟨r, nsent, outs, log, false⟩
   | d :: rest, nsent, _, outs, log =>
     let k := sendmsg1 d outs
-    if k.r ≠ 0 then ⟨k.r, nsent, k.outs, log ++ k.log⟩
+    if k.r ≠ 0 then ⟨k.r, nsent, k.outs, log ++ k.log, false⟩
     else msgLoop rest (nsent + 1) k.r k.outs (log ++ k.log)
 
-/-- `exit:` (1343-1354) -/
-def vExit (r : Int) (nsent : Nat) : Int :=
-  if nsent > 0 then nsent else if r < 0 then mapErr r else r
+/-- `exit:` — only a failed system call (r == -1) takes its reason from errno (EAGAIN/ENOBUFS → UV_EAGAIN); an
+error code from uv__udp_prep_pkt / uv__udp_sendmsg1 is returned as it is -/
+def vExit (r : Int) (nsent : Nat) (sys : Bool) : Int :=
+  if nsent > 0 then nsent else if sys then mapErr r else r
 
 structure VRes where
   ret : Int
@@ -130,10 +141,10 @@ def sendmsgv (all : List Dgram) (outs : List SOut) : VRes :=
   let count := all.length
   if count > 1 then
     let l := mmsgLoop all count count 0 0 0 outs []
-    ⟨vExit l.r l.nsent, l.outs, l.log⟩
+    ⟨vExit l.r l.nsent l.sys, l.outs, l.log⟩
   else
     let l := msgLoop all 0 0 outs []
-    ⟨vExit l.r l.nsent, l.outs, l.log⟩
+    ⟨vExit l.r l.nsent l.sys, l.outs, l.log⟩
 
 /-! ## handle state -/
 
